@@ -1,7 +1,7 @@
 CONSTANTS N = 2
-CONSTANT Configs <- StopQuick
+CONSTANT Configs <- RepeatLimit
 SPECIFICATION MCSpec
 VIEW MCView
 CONSTRAINT ExecBound
-INVARIANTS Lead_C04_NoRunningLeft
+INVARIANTS TypeOK C15_Limit C08_FinalLabels
 CHECK_DEADLOCK FALSE
